@@ -145,6 +145,7 @@ func TestC03(t *testing.T) {
 	for _, c := range []string{"layout:tabs", "layout:crlf", "layout:comment-lines", "layout:trailing-comments", "layout:multi-line-restrictions", "layout:redundant-parens", "model:keyword-identifier", "layout:trailing-whitespace", "layout:no-final-newline", "file:module"} {
 		rec.Require(c, 0.03)
 	}
+	rec.Require("model:scaled", 0.05)
 	harness := false
 	// boundary models (fixed, legal, at the edges of the input space), canonical layout
 	if ev.Shard()%4 == 0 {
